@@ -38,7 +38,7 @@ use dmntk_feel::context::FeelContext;
 use dmntk_feel::values::{Value, Values};
 use dmntk_feel::{value_null, AstNode, Evaluator, FeelType, Name, Scope};
 use dmntk_model::model::{Definitions, Expression, ItemDefinition, ItemDefinitionType, NamedElement};
-use std::collections::HashMap;
+use std::collections::{HashMap, HashSet};
 
 /// Type of closure that evaluates input data conformant with item definition.
 type ItemDefinitionEvaluatorFn = Box<dyn Fn(&Value, &ItemDefinitionEvaluator) -> Value + Send + Sync>;
@@ -52,8 +52,9 @@ pub struct ItemDefinitionEvaluator {
 impl ItemDefinitionEvaluator {
   /// Creates new item definition evaluator.
   pub fn build(&mut self, definitions: &Definitions) -> Result<()> {
+    let mut checked = HashSet::new();
     for item_definition in definitions.item_definitions() {
-      check_references(item_definition, definitions, 1)?;
+      check_references(item_definition, definitions, &mut HashSet::new(), &mut checked)?;
       let evaluator = build_item_definition_evaluator(item_definition)?;
       let type_ref = item_definition.name().to_string();
       self.evaluators.insert(type_ref, evaluator);
@@ -71,22 +72,25 @@ impl ItemDefinitionEvaluator {
 }
 
 /// Checks if following the type references of an item definition (and of its components) ends:
-/// a chain of references longer than the number of item definitions visits some item definition twice,
-/// evaluating its type would never end.
-fn check_references(item_definition: &ItemDefinition, definitions: &Definitions, length: usize) -> Result<()> {
-  if length > definitions.item_definitions().len() {
-    return Err(err_recursive_item_definition(item_definition.name()));
-  }
+/// an item definition that is referenced again by the chain of references below it refers to itself,
+/// evaluating its type would never end. An item definition whose references were already followed
+/// to their ends is not followed again.
+fn check_references<'a>(item_definition: &'a ItemDefinition, definitions: &'a Definitions, chain: &mut HashSet<&'a str>, checked: &mut HashSet<&'a str>) -> Result<()> {
   if let Some(type_ref) = item_definition.type_ref() {
-    if super::type_ref_to_feel_type(type_ref).is_none() {
+    if super::type_ref_to_feel_type(type_ref).is_none() && !checked.contains(type_ref.as_str()) {
       // the evaluators are registered by name, the last item definition of a name is the one that is used
       if let Some(referenced_item_definition) = definitions.item_definitions().iter().rev().find(|v| v.name() == type_ref) {
-        check_references(referenced_item_definition, definitions, length + 1)?;
+        if !chain.insert(type_ref) {
+          return Err(err_recursive_item_definition(type_ref));
+        }
+        check_references(referenced_item_definition, definitions, chain, checked)?;
+        chain.remove(type_ref.as_str());
+        checked.insert(type_ref);
       }
     }
   }
   for component_item_definition in item_definition.item_components() {
-    check_references(component_item_definition, definitions, length)?;
+    check_references(component_item_definition, definitions, chain, checked)?;
   }
   Ok(())
 }
